@@ -22,12 +22,16 @@ TOL = {'Const("0.01")', 'Const("0.5")', "max_slippage"}
 FLOORS = {"POLAR-swap-tolerance": 2, "CUT-slippage-before-write": 4}
 
 
-def cmp_preds(A):
+def cmp_preds(A, closures=False):
     """every `>`-shaped comparison of the analysis, canonicalised: (event, greater side, smaller side, strict, reject_on)
-    where the comparison reads `greater > smaller` (or >=) when it holds"""
+    where the comparison reads `greater > smaller` (or >=) when it holds.  closures=True: also comparisons returned by a
+    closure (`opt.filter(|m| balance < *m)`), which decide through the combinator's result."""
     from base import rel_atoms
     out = []
-    for e in A.switches():
+    evs = list(A.switches())
+    if closures:
+        evs += [e for e in A.events if e.kind == "invoke" and e.vals and e.vals[0] is not None]
+    for e in evs:
         for (n, a, pos) in rel_atoms(e.vals[0]):
             x, y = a[0], a[1]
             if n in ("gt", "ge"):
@@ -55,11 +59,17 @@ def run(W, chk):
     A = W.run(PM, "execute", ("Swap",), CutPolicy([], opaque=[sc.N.CS]))
     TOLS = {'Const("0.01")', 'Const("0.5")', "msg.Swap.max_slippage"}
     tol = [(e, g, sm, strict, pos) for (e, g, sm, strict, pos) in cmp_preds(A) if 'Const("0.5")' in opmap(sm) or 'Const("0.5")' in opmap(g)]
+    # a comparison of the tolerance's own ingredients with each other is a hand-written clamp (`if requested < cap { requested } else
+    # { cap }`), not a use of the tolerance: the `min` operator requirement then becomes best effort (the branch/value correlation of a
+    # hand-written clamp is not decided), the side and strictness of the two real comparisons are still checked
+    clamp = [t for t in tol if set(opmap(t[1])) <= TOLS and set(opmap(t[2])) <= TOLS]
+    tol = [t for t in tol if t not in clamp]
     chk.expect(len(tol) == 2, "POLAR-swap-tolerance", "anchor", "two comparisons involve the capped tolerance (belief price, spread)",
                "%d comparisons involve the 0.5 cap" % len(tol), A.entry)
     for (e, g, sm, strict, pos) in tol:
         gm, smm = opmap(g), opmap(sm)
-        okr = set(smm) == TOLS and all(ops == frozenset(["min"]) for ops in smm.values()) and not (set(gm) & TOLS) and strict
+        okr = set(smm) == TOLS and (all(ops == frozenset(["min"]) for ops in smm.values()) or (clamp and all(ops <= frozenset(["min"]) for ops in smm.values()))) \
+            and not (set(gm) & TOLS) and strict
         chk.expect(okr, "POLAR-swap-tolerance", "bb%d" % e.bb,
                    "reject iff measured > min(max_slippage or 0.01, 0.5): the tolerance sits on the smaller side of a strict reject, through unwrap_or and min only",
                    "tolerance comparison is %s > %s (strict %s)" % ({k: sorted(v) for k, v in gm.items()}, {k: sorted(v) for k, v in smm.items()}, strict), where(e))
@@ -71,8 +81,10 @@ def run(W, chk):
             and "div:r" in lhs.get("info.funds[*].amount", ()) and "div:r" in lhs.get("msg.Swap.belief_price", ())
         chk.expect(ok, "POLAR-belief-shortfall", "belief branch", "(expected - return) / expected with expected = offer / belief_price",
                    "belief-price slippage is computed as %s" % {k: sorted(v) for k, v in lhs.items()}, where(e))
-    exp_guard = [(e, g, sm) for (e, g, sm, strict, pos) in cmp_preds(A) if exact_origins(sm) == {C + ".return_amount"} and not ops_of(sm)
-                 and {"info.funds[*].amount", "msg.Swap.belief_price"} <= set(opmap(g))]
+    def _ret_vs_expected(a, b):
+        return exact_origins(a) == {C + ".return_amount"} and not ops_of(a) and {"info.funds[*].amount", "msg.Swap.belief_price"} <= set(opmap(b))
+    # `return < expected` guarding the check, or its complement `return >= expected` leaving early
+    exp_guard = [(e, g, sm) for (e, g, sm, strict, pos) in cmp_preds(A) if _ret_vs_expected(sm, g) or _ret_vs_expected(g, sm)]
     chk.expect(len(bel) == 1 and len(exp_guard) >= 1, "POLAR-belief-shortfall", "guard", "only a return below offer/belief_price can be rejected",
                "belief guard `return < expected` not found (%d belief comparisons, %d guards)" % (len(bel), len(exp_guard)), A.entry)
     for (e, g, sm, strict, pos) in spr:
@@ -184,7 +196,7 @@ def run(W, chk):
     # ---------------- minimum_receive
     X = W.run(PM, "execute", ("ExecuteSwapOperations",), CutPolicy([], opaque=[sc.N.CS]))
     MR = "msg.ExecuteSwapOperations.minimum_receive"
-    mr = [t for t in cmp_preds(X) if exact_origins(t[1]) == {MR} or exact_origins(t[2]) == {MR}]
+    mr = [t for t in cmp_preds(X, closures=True) if exact_origins(t[1]) == {MR} or exact_origins(t[2]) == {MR}]
     final = [e for e in X.aggs(r"BankMsg::Send$") if "msg.ExecuteSwapOperations.receiver" in all_origins(X.d(field_val(e, "to_address")))]
     ok = len(mr) == 1 and len(final) == 1
     if ok:
